@@ -8,7 +8,7 @@ cd "$(dirname "$0")"
   echo
   echo "Produced by \`seeded/run_checks.sh\` (each change applied in a scratch worktree, every registered check run"
   echo "from a snapshot of /verif) and rendered by \`seeded/table.py\`. First-round mutants (\`_m1\`..\`_m3\`) were run against"
-  echo "all 20 checks, second-round mutants (\`_m4\`, \`_m5\`) against the check of their own property. Obligations ending in"
+  echo "all 20 checks, second- and third-round mutants (\`_m4\`, \`_m5\`) against the check of their own property. Obligations ending in"
   echo "\`/supported-subset\` mean that the contract no longer fits the changed code (a renamed or removed local, a removed"
   echo "defer), which is reported like any other failed obligation."
   echo
@@ -22,7 +22,10 @@ cd "$(dirname "$0")"
   echo "machinery (numbered call-site clauses inside inlined code matched nothing: C10_m1; obligations proved from an"
   echo "earlier failed obligation of another property: C03_m3). Of the 20 second-round changes 16 were reported at once;"
   echo "the other four (C07_m4, C08_m5, C17_m4, C17_m5) led to the content-closure property tags, the parameter-binding"
-  echo "step clause, the IsSet/isSet correspondence and the C17 tags on resolveIndex."
+  echo "step clause, the IsSet/isSet correspondence and the C17 tags on resolveIndex. A third round (\`_m4\`, \`_m5\` of the"
+  echo "other ten properties, run against their own check): 17 of 20 reported at once; C06_m4 (omitted slice end index), C10_m5"
+  echo "(shared block table: reported by C08/C11 only) and C20_m5 (range collection stored twice in the tree) led to the"
+  echo "call-site clauses on reflect.Value.Slice, the C10 tag on addBlocks/Set.parse and the parseControl postconditions."
   echo
   echo "# Part II — the round-0 plan (kept for reference; Part I wins where they differ)"
   echo
